@@ -80,7 +80,7 @@ theorem map_range_digits (sb : I64) (n : Nat) :
     rfl
 
 /-- `encode` = header byte followed by the digits of the sign-flipped, shifted value -/
-theorem encode_eq (v : I64) (s : Nat) :
+theorem encode_eq_digits (v : I64) (s : Nat) :
     encode v s = BitVec.ofNat 8 (0x20 + s) :: digits ((v ^^^ signBit) >>> s) (nChars s) := by
   unfold encode
   simp only [map_range_digits]
@@ -145,13 +145,13 @@ theorem decode_encode_of_shiftOf (v : I64) (s : Nat) (hs : s ≤ 63)
     (h : shiftOf (encode v s) = some s) : decode (encode v s) = some ((v >>> s) <<< s) := by
   unfold decode
   rw [h]
-  simp only [encode_eq, List.drop_succ_cons, List.drop_zero]
+  simp only [encode_eq_digits, List.drop_succ_cons, List.drop_zero]
   have h0 : (0#64 : I64) = ((v ^^^ signBit) >>> s) >>> (7 * nChars s) := by
     rw [← BitVec.shiftRight_add, BitVec.ushiftRight_eq_zero (seven_nChars s hs)]
   rw [h0, foldl_digits, unflip v s hs]
 
 theorem shiftOf_encode (v : I64) (s : Nat) (hs : s ≤ 62) : shiftOf (encode v s) = some s := by
-  rw [encode_eq]
+  rw [encode_eq_digits]
   simp only [shiftOf]
   have : (BitVec.ofNat 8 (0x20 + s) - 0x20#8).toNat = s := by
     simp only [BitVec.toNat_sub, BitVec.toNat_ofNat]; omega
@@ -172,16 +172,16 @@ theorem shift63_witness :
   decide
 
 theorem shift63_all (v : I64) : shiftOf (encode v 63) = none ∧ decode (encode v 63) = none := by
-  have : shiftOf (encode v 63) = none := by rw [encode_eq]; simp [shiftOf]
+  have : shiftOf (encode v 63) = none := by rw [encode_eq_digits]; simp [shiftOf]
   exact ⟨this, by unfold decode; rw [this]⟩
 
 theorem length_encode (v : I64) (s : Nat) : (encode v s).length = nChars s + 1 := by
-  rw [encode_eq]; simp [length_digits]
+  rw [encode_eq_digits]; simp [length_digits]
 
 /-- every produced term passes `ValidPrefixCodedTermBytes`, which reports its shift -/
 theorem validTerm_encode (v : I64) (s : Nat) (hs : s ≤ 63) : validTerm (encode v s) = (true, s) := by
   have hl := length_encode v s
-  rw [encode_eq] at hl ⊢
+  rw [encode_eq_digits] at hl ⊢
   have hb : (BitVec.ofNat 8 (0x20 + s)).toNat = 0x20 + s := by
     simp only [BitVec.toNat_ofNat]; omega
   simp only [validTerm, hb, hl]
@@ -314,7 +314,7 @@ theorem flip_shift_eq (a b : I64) (s : Nat) (hs : s ≤ 63) :
 values shifted arithmetically (at shift 0: of the values themselves) -/
 theorem encode_order (a b : I64) (s : Nat) (hs : s ≤ 63) :
     bytesLt (encode a s) (encode b s) = true ↔ (a.sshiftRight s).slt (b.sshiftRight s) = true := by
-  rw [encode_eq, encode_eq, bytesLt_cons_same, bytesLt_digits,
+  rw [encode_eq_digits, encode_eq_digits, bytesLt_cons_same, bytesLt_digits,
     Nat.mod_eq_of_lt (shifted_lt _ s hs), Nat.mod_eq_of_lt (shifted_lt _ s hs), flip_shift_lt a b s hs]
 
 theorem encode_order_zero (a b : I64) : bytesLt (encode a 0) (encode b 0) = true ↔ a.slt b = true := by
@@ -333,7 +333,7 @@ theorem encode_injective_on_shifted (a b : I64) (s : Nat) (hs : s ≤ 63) :
     apply BitVec.eq_of_toInt_eq
     omega
   · intro h
-    rw [encode_eq, encode_eq, (flip_shift_eq a b s hs).2 h]
+    rw [encode_eq_digits, encode_eq_digits, (flip_shift_eq a b s hs).2 h]
 
 theorem encode_injective (a b : I64) : encode a 0 = encode b 0 ↔ a = b := by
   simpa using encode_injective_on_shifted a b 0 (by omega)
@@ -355,11 +355,19 @@ theorem encode_le (a b : I64) (s : Nat) (hs : s ≤ 63) :
 /-- terms of different shifts are ordered by their first byte -/
 theorem encode_order_shift (a b : I64) (s t : Nat) (hst : s < t) (ht : t ≤ 63) :
     bytesLt (encode a s) (encode b t) = true := by
-  rw [encode_eq, encode_eq]
+  rw [encode_eq_digits, encode_eq_digits]
   have h1 : (BitVec.ofNat 8 (0x20 + s)).toNat = 0x20 + s := by simp only [BitVec.toNat_ofNat]; omega
   have h2 : (BitVec.ofNat 8 (0x20 + t)).toNat = 0x20 + t := by simp only [BitVec.toNat_ofNat]; omega
   simp only [bytesLt, h1, h2]
   have : 32 + s < 32 + t := by omega
   simp [this]
+
+/-! ## instances (the premises are satisfiable; the statements are not vacuous) -/
+example : decode (encode (-5#64) 8) = some (((-5#64) >>> 8) <<< 8) := decode_encode (-5#64) 8 (by omega)
+example : decode (encode (-5#64) 8) = some (-256#64) := by decide
+example : bytesLt (encode (-1#64) 0) (encode 0#64 0) = true := by decide
+example : bytesLt (encode 0x7fffffffffffffff#64 0) (encode 0x8000000000000000#64 0) = false := by decide
+example : encode 0x10#64 4 = encode 0x1f#64 4 ∧ encode 0x10#64 4 ≠ encode 0x20#64 4 := by decide
+example : validTerm (encode 123#64 60) = (true, 60) := by decide
 
 end Bluge.C10
